@@ -36,6 +36,7 @@ type Obligation struct {
 	Model   map[string]interface{} `json:"model"`
 	Replay  *string                `json:"replay"`
 	Reason  string                 `json:"reason"`
+	Ghost   bool                   `json:"ghost,omitempty"` // stated with verifAssertGhost
 
 	kind        string // assert | reach | panic
 	stats       QueryStats
@@ -504,6 +505,7 @@ func (e *Explorer) AssertKind(id string, c *Term, ghost bool) {
 	o := e.getObl("assert", id)
 	if ghost {
 		o.ghost = true
+		o.Ghost = true
 	}
 	idx := len(e.events)
 	if idx < len(e.script) {
